@@ -518,7 +518,7 @@ func cmdCheck() int {
 	var initOnlyNote string
 	if hasProp(e.spec.LockProps, prop) && len(e.spec.InitOnly) > 0 && *flagFn == "" && *flagOnly == "" {
 		n, bad := e.initOnlyScan(e.spec.InitOnly)
-		initOnlyNote = fmt.Sprintf("init-only globals %v: %d functions scanned over go/ssa (no solver), %d writes outside init", e.spec.InitOnly, n, len(bad))
+		initOnlyNote = fmt.Sprintf("init-only globals %v and every other package-level variable of the packages under contract: %d functions scanned over go/ssa (no solver), %d writes outside init", e.spec.InitOnly, n, len(bad))
 		fmt.Println("  ssa-scan ", initOnlyNote)
 		for i, b := range bad {
 			report(fmt.Sprintf("init-only#%d: %s", i+1, b), "a package-level table that concurrent readers rely on is written outside package initialisation: "+b, nil)
